@@ -117,6 +117,18 @@ void post_oracles(WorldRun &wr, const Pool &pool, const Snapshot &before, ExecCt
   }
 }
 
+// The C09 check keeps a run going past violations of *other* properties: an
+// invalid object (C10) or a disturbed operand (C14) is exactly the state from
+// which the out-of-bounds access or the use of dead storage then happens.
+// Every other check stops a run at the first violation of any property.
+bool has_fatal(const Plan &plan, std::vector<Violation> &viol) {
+  if (plan.check != "C09") return !viol.empty();
+  for (const Violation &v : viol)
+    if (v.prop == "C09") return true;
+  if (viol.size() > 8) viol.resize(8);
+  return false;
+}
+
 bool sweepable(const Op &op) { return op.kind != OP_M_SEND && op.kind != OP_M_RECV; }
 
 void sweep_op(WorldRun &wr, int task, const Pool &pool, const Op &op, uint32_t idx,
@@ -194,7 +206,7 @@ void run_op(WorldRun &wr, int task, Pool &pool, const Op &op, uint32_t idx, Task
   Snapshot before = snapshot(pool, plan.deep != 0);
   if (plan.sweep && sweepable(op) && task >= 0) {
     sweep_op(wr, task, pool, op, idx, before, log);
-    if (!log.viol.empty()) return;
+    if (has_fatal(plan, log.viol)) return;
   }
   int64_t al, sc, cb;
   attach(op, al, sc, cb, log.cnt);
@@ -265,7 +277,7 @@ void task_body(void *arg, int id) {
   for (; i < prog.size(); i++) {
     if (sim::world_stopped()) break;
     run_op(wr, id, pool, prog[i], i, log);
-    if (!log.viol.empty()) {
+    if (has_fatal(*wr.plan, log.viol)) {
       sim::stop_world();
       break;
     }
@@ -328,10 +340,10 @@ void run_world(const Plan &plan, const sim::SchedConfig &cfg, WorldResult &res) 
     uint32_t si = 0;
     for (const Op &o : plan.setup) {
       run_op(wr, -1, wr.w.shared, o, si++, wr.setup_log);
-      if (!wr.setup_log.viol.empty()) break;
+      if (has_fatal(plan, wr.setup_log.viol)) break;
     }
     wr.shared_snap = snapshot(wr.w.shared, false);
-    if (wr.setup_log.viol.empty()) {
+    if (!has_fatal(plan, wr.setup_log.viol)) {
       sim::run_tasks(n, task_body, &wr, cfg, res.stats, &res.switches);
     }
     for (int t = 0; t < n; t++) res.pool_state = hmix(res.pool_state, abstract_pool_state(wr.w.priv[t]));
